@@ -6,7 +6,7 @@ import ast
 from ..cfg import CFG, EXIT
 from ..const import module_const
 from ..core import AnalysisError, calls_in, call_name, const_str, dotted, unparse, walk_no_nested
-from ..match import if_chain, kwarg
+from ..match import canon, if_chain, kwarg
 from ..report import Ctx
 
 LEVEL = "other"
@@ -77,6 +77,17 @@ def r1_options_reach_assembler(ctx: Ctx) -> None:
 def r2_mapping_choices_total(ctx: Ctx) -> None:
     sm = ctx.repo.func(PROGRAM, "Program.set_mapping")
     d = [n for n in walk_no_nested(sm.node) if isinstance(n, ast.Dict)]
+    tname = None
+    if not d:
+        # the table may live at module level: follow the name subscripted by the parameter
+        for n in walk_no_nested(sm.node):
+            if isinstance(n, ast.Subscript) and isinstance(n.value, ast.Name) and unparse(n.slice) == sm.params()[1]:
+                r = ctx.repo.resolve_name(sm.module, n.value.id)
+                if r and r[0] == "global":
+                    mi_, nm_ = r[1]  # type: ignore[misc]
+                    if isinstance(mi_.assigns.get(nm_), ast.Dict) and sum(1 for x, _ in mi_.assigns_all if x == nm_) == 1:
+                        d = [mi_.assigns[nm_]]
+                        tname = n.value.id
     if len(d) != 1:
         raise AnalysisError("set_mapping: mapping-name table not found")
     table = {const_str(k): (dotted(v) or "").split(".")[-1] for k, v in zip(d[0].keys, d[0].values)}
@@ -88,7 +99,10 @@ def r2_mapping_choices_total(ctx: Ctx) -> None:
         ctx.check(table.get(name) == rom, f"set_mapping[{name}]", f"`-m {name}` selects RomType.{rom}; found {table.get(name)}")
         ctx.check(table.get(name) in keys, f"BUS_MAPPING[{table.get(name)}]", "the selected RomType has a bus (Resolver.get_bus subscripts BUS_MAPPING)")
     st = [n for n in walk_no_nested(sm.node) if isinstance(n, ast.Assign) and unparse(n.targets[0]) == "self.resolver.rom_type"]
-    ctx.check(len(st) == 1 and unparse(st[0].value) == f"address_mapping[{sm.params()[1]}]", "set_mapping:assigns-rom-type", "plain subscript (an unknown name raises)")
+    local_tables = {unparse(n.targets[0]) for n in walk_no_nested(sm.node) if isinstance(n, ast.Assign) and n.value is d[0]}
+    okv = len(st) == 1 and isinstance(st[0].value, ast.Subscript) and unparse(st[0].value.slice) == sm.params()[1] and \
+        (st[0].value.value is d[0] or unparse(st[0].value.value) in local_tables or unparse(st[0].value.value) == tname)
+    ctx.check(okv, "set_mapping:assigns-rom-type", "plain subscript of the name table by the option value (an unknown name raises)")
     cli = ctx.repo.func(CLI, "cli_main")
     m = _dests(cli.node)["mapping"]
     ctx.check(const_str(kwarg(m, "default")) in table, "cli_main:-m default", "the default mapping name is a known one")
